@@ -1,5 +1,6 @@
 import JanetModel.Spec.Model
 import JanetModel.Spec.Template
+import JanetModel.Spec.Fixed
 import JanetModel.Bytecode.VMPasses
 
 /-!
@@ -308,6 +309,9 @@ def WP : Prims where
   other := fun _ _ _ w => (.error "unsupported", w)
   unary := fun _ _ w => (.error "unsupported", w)
   getIndex := fun _ _ w => (.error "unsupported", w)
+  put3 := fun _ _ _ w => (.error "unsupported", w)
+  signal := fun _ _ w => (.error "unsupported", w)
+  raise := fun _ => "raised"
 
 def theArg : Arg WP := ⟨.tab, none⟩
 
@@ -346,6 +350,21 @@ example : ∃ m, evalInline Witness.WP (optimizers.getD 8 default) [⟨.tab, non
 theorem fixed_rows_consistent :
     ∀ r ∈ optimizers, ∃ t ∈ templates, t.tag = r.tag ∧ guardWithinArity r t = true ∧ asmShapeOk r t = true := by
   decide +kernel
+
+/-- ★ obligation on the regenerated tables: every fixed-arity row (all 33 rows minus the 19 variadic ones minus `apply`) has a
+    template whose words decode to the asm shape its handler requires, with a large enough frame and compatible arities -/
+theorem fixed_rows_ok :
+    optimizers.all fixedRowOk = true ∧ (optimizers.filter (fun r => (shapeOf r).isSome)).length = 13 ∧
+    (optimizers.filter (fun r => !(shapeOf r).isSome && !isVariadic r)).map (·.handlerName) = ["do_apply"] := by
+  decide +kernel
+
+/-- ★ instance: for every fixed-arity specialised function except `apply` (get in put length next cmp resume cancel yield debug
+    error propagate bnot) the inline code computes what running the generic function's real bytecode computes -/
+theorem fixed_inline_eq_generic (hnil1 : ∀ v, P.eqv v P.nil = P.isNil v) (hnil2 : ∀ v, P.isNil v = true → v = P.nil)
+    (r : OptRow) (hr : r ∈ optimizers) (t : CoreFun) (ht : templateOf r.tag = some t)
+    (args : List P.V) (m : M P P.V) (hm : evalInlineFixed P r args = some m) (w : P.W) :
+    ∃ code fuel, t.words.map decode = code.map some ∧ exec P code fuel (frameOf P t.slots args) w = some (m w) :=
+  fixed_inline_eq_generic_bytecode P hnil1 hnil2 r (List.all_eq_true.mp fixed_rows_ok.1 r hr) t ht args m hm w
 
 /-! ### call-site selection: nil fast paths of `if` / `while` -/
 
